@@ -9,7 +9,7 @@ from vlib.common import Stats, Violation, hyp, shard_seed, sweep
 
 from . import pickles_common as pc
 
-ALPHABET = ["a", ".", "(", "[", "\\", "$", "1", "<", ">", "|", "*"]
+ALPHABET = ["a", ".", "(", "[", "\\", "$", "1", "<", ">", "|", "*", "A"]
 META = set(".()[]\\$^*+?{}|<>") | {"\n"}
 LOC = {"line": 1, "column": 1}
 
@@ -46,7 +46,8 @@ def build(case):
     steps = [step(t) for t in ts] + [step("tbl", table=ts), step("doc", doc="\n".join(ts), media=t0), step("doc-no-media", doc=t0)]
     header = {"id": gid(), "location": LOC, "cells": [{"location": LOC, "value": h} for h in hs]}
     row = {"id": gid(), "location": LOC, "cells": [{"location": LOC, "value": v} for v in vs]}
-    ex = {"id": gid(), "tags": [], "location": LOC, "keyword": "Examples", "name": t0, "description": "", "tableHeader": header, "tableBody": [row]}
+    body = [row] + [{"id": gid(), "location": LOC, "cells": [{"location": LOC, "value": v} for v in r]} for r in case.get("more_rows", [])]
+    ex = {"id": gid(), "tags": [], "location": LOC, "keyword": "Examples", "name": t0, "description": "", "tableHeader": header, "tableBody": body}
     exs = [ex]
     if case.get("second_block"):
         # a second examples block: other header names (reversed order / renamed), the very same row values
@@ -67,11 +68,22 @@ def check_interp(case, stats):
     nontrivial = any(set(x) & META for x in hs + vs) or len(hs) >= 2
     stats.case(case, nontrivial, sample=case, labels=["cols=%d" % len(hs)])
     pk = pc.real_compile(doc, nid)
-    if len(pk) != (2 if case.get("second_block") else 1):
+    more = case.get("more_rows", [])
+    if len(pk) != (2 if case.get("second_block") else 1) + len(more):
         raise Violation(case, "expected exactly one pickle per example row, got %d" % len(pk))
+    for j, r in enumerate(more):
+        pj = pk[1 + j]
+        own_j = pj["steps"][nbg:]
+        wantj = [literal(t, hs, r) for t in ts]
+        gotj = [s_["text"] for s_ in own_j[:len(ts)]]
+        cellsj = [c["value"] for c in own_j[len(ts)]["argument"]["dataTable"]["rows"][0]["cells"]]
+        dsj = own_j[len(ts) + 1]["argument"]["docString"]
+        if gotj != wantj or pj["name"] != literal(" / ".join(ts), hs, r) or cellsj != wantj or dsj != {"content": literal("\n".join(ts), hs, r), "mediaType": literal(ts[0], hs, r)}:
+            raise Violation(case, "example row #%d (values %r, headers %r): name %r, step texts %r, cells %r, doc string %r; literal substitution gives texts/cells %r" % (
+                j + 2, r, hs, pj["name"], gotj, cellsj, dsj, wantj))
     if case.get("second_block"):
         hs2 = case["second_block"]
-        p2 = pk[1]
+        p2 = pk[1 + len(more)]
         want2 = [literal(t, hs2, vs) for t in ts]
         got2 = [s_["text"] for s_ in p2["steps"][nbg:nbg + len(ts)]]
         if got2 != want2 or p2["name"] != literal(" / ".join(ts), hs2, vs):
@@ -111,7 +123,7 @@ def check_interp(case, stats):
 
 
 def templates_for(h):
-    return ["<" + h + ">", "x<" + h + ">y<" + h + ">", "<<" + h + ">>", "<other>", "plain " + h, h + "> <" + h]
+    return ["<" + h + ">", "x<" + h + ">y<" + h + ">", "<<" + h + ">>", "<other>", "plain " + h, h + "> <" + h, "<" + h.swapcase() + ">", "< " + h + " >"]
 
 
 def unit_alpha(a):
@@ -148,7 +160,12 @@ def unit_two_columns(a):
                         n += 1
                         if n % a["nshards"] != a["shard"]:
                             continue
-                        yield {"sub": "interp", "headers": [h1, h2], "values": [v1, v2], "second_block": [h2, h1] if n % 3 == 0 else ([h1 + "q", h2] if n % 3 == 1 else None),
+                        more = []
+                        if n % 4 == 0:
+                            more = [["<" + h1 + ">", "<" + h2 + ">"], [v2, v1]]      # an identity row, then the values swapped
+                        elif n % 4 == 1:
+                            more = [[v1 + "|" + v2, "z"], [v1, v2 + "|z"]]             # rows that differ only in where a literal pipe falls
+                        yield {"sub": "interp", "headers": [h1, h2], "values": [v1, v2], "more_rows": more, "second_block": [h2, h1] if n % 3 == 0 else ([h1 + "q", h2] if n % 3 == 1 else None),
                                "templates": ["<%s>" % h1, "<%s> <%s>" % (h2, h1), "<<%s>>" % h2, "x", "<%s><%s" % (h1, h2)]}
     sweep(stats, gen(), check_interp)
     return stats
@@ -178,7 +195,17 @@ def st_interp(draw):
     second = None
     if draw(st.integers(0, 2)) == 0:
         second = list(reversed(hs)) if draw(st.booleans()) else [h + "z" for h in hs]
-    return {"sub": "interp", "headers": hs, "values": vs, "templates": ts, "second_block": second}
+    more = []
+    for _ in range(draw(st.integers(0, 2))):
+        k = draw(st.integers(0, 3))
+        if k == 0:
+            more.append(["<" + h + ">" for h in hs])
+        elif k == 1:
+            more.append(list(reversed(vs)))
+        else:
+            more.append([draw(st_word) for _ in hs])
+    hs = [h.upper() if draw(st.integers(0, 9)) == 0 else h for h in hs]
+    return {"sub": "interp", "headers": hs, "values": vs, "templates": ts + ["<" + hs[0].swapcase() + ">", "<" + hs[0].replace("k", "\u212a") + ">"], "second_block": second, "more_rows": more}
 
 
 def unit_hyp(a):
